@@ -95,6 +95,9 @@ def run(model, tier="quick"):
     # constructors establish the relations between fields that the references above take for granted
     from .ctor_refs import constructors
     res.units["constructor_references"] = constructors(res, model, ('pool',))
+    # the pool's price feed is keyed by base / quote, never by token0 / token1
+    from .price_refs import price_feeds
+    res.units["price_feed_references"] = price_feeds(res, model, which=("uniswap",))
     from ..rules.fresh import fresh_rule
     if "R-FRESH" not in res.rules:
         res.rules.append("R-FRESH")
